@@ -283,6 +283,10 @@ impl SurfaceWorld {
         ctx.call("TxOut::pegout_data", n, || o.pegout_data().map(|d| d.extra_data.len()));
         ctx.call("TxOut::is_null_data", n, || (o.is_null_data(), o.is_pegout(), o.is_fee(), o.minimum_value()));
         ctx.call("read_scriptint", n, || elements::script::read_scriptint(b).is_ok());
+        for size in [0usize, 1, 2, 4, 8, 9, n, n + 1] {
+            ctx.call("read_uint", n, || elements::script::read_uint(b, size).is_ok());
+        }
+        ctx.call("read_scriptbool", n, || elements::script::read_scriptbool(b));
     }
     fn slice_parsers(&self, ctx: &mut Ctx, b: &[u8]) {
         let n = b.len();
@@ -585,6 +589,27 @@ impl World for SurfaceWorld {
             Surface::ScriptBytes => {
                 let base = gen::script(p, 120).to_bytes();
                 let b = if p.coin() { base } else { mutate_bytes(p, &base) };
+                // a push opcode whose announced length runs past the end (or is cut inside its length bytes)
+                let b = if p.chance(1, 4) {
+                    let mut v = b;
+                    v.truncate(p.usize_below(v.len() + 1));
+                    let tail: Vec<u8> = match p.below(8) {
+                        0 => vec![0x4c],
+                        1 => vec![0x4c, p.u8()],
+                        2 => vec![0x4d],
+                        3 => vec![0x4d, p.u8()],
+                        4 => vec![0x4d, p.u8(), p.u8()],
+                        5 => vec![0x4e, p.u8(), p.u8()],
+                        6 => vec![0x4e, 0xff, 0xff, 0xff, 0xff],
+                        _ => vec![1 + p.below(75) as u8],
+                    };
+                    v.extend(tail);
+                    let k = p.usize_below(6);
+                    v.extend(p.bytes(k));
+                    v
+                } else {
+                    b
+                };
                 // pegout-shaped scripts
                 let b = if p.chance(1, 5) { let mut v = vec![0x6a, 0x20]; v.extend(p.bytes(32)); v.push(p.below(0x4f) as u8); let k = p.usize_below(30); v.extend(p.bytes(k)); v } else { b };
                 (None, Some(b))
